@@ -12,7 +12,7 @@ def run(tier, seed):
         pass
     from ..propbase import deductive
     R = "markdown_it.ruler.Ruler."
-    deductive(rep, "C10", [R + m for m in ("enable", "disable", "enableOnly", "at", "before", "after", "push", "__find__")], "contracts.ruler",
+    deductive(rep, "C10", [R + m for m in ("enable", "disable", "enableOnly", "at", "before", "after", "push", "__find__", "__compile__", "getRules")], "contracts.ruler",
               select=lambda q, ob, rel: ob.kind not in ("SAFE", "DEC"))
     cfgs = ["commonmark", "js-default", "zero", "cm-heading", "cm-code", "cm+table+strike", "cm+defs"]
     lines_universe(rep, "vf.oracles2:c10_vocab", tier, "MarkdownIt.parse", "token types subset of the vocabulary of the enabled rules (html tokens only with options.html)", cfgs=cfgs)
